@@ -141,7 +141,7 @@ impl Check for C09 {
     }
 
     fn cases(&self, tier: Tier) -> u64 {
-        tier.pick(30_000, 1_000_000)
+        tier.pick(90_000, 1_000_000)
     }
 
     fn max_shrink_iters(&self) -> u32 {
